@@ -211,6 +211,14 @@ impl<'s, M: Matcher, S: Sink> MultiLine<'s, M, S> {
 
         let line =
             lines::locate(self.slice, self.config.line_term.as_byte(), mat);
+        if line.is_empty() {
+            // The only way we can produce an empty line for a match is if we
+            // match the position immediately following the last byte that we
+            // search, and where that last byte is also the line terminator.
+            // There is no line to report, and therefore also no context to
+            // report on its behalf.
+            return Ok(true);
+        }
         // We delay sinking the match to make sure we group adjacent matches
         // together in a single sink. Adjacent matches are distinct matches
         // that start and end on the same line, respectively. This guarantees
